@@ -519,31 +519,112 @@ theorem searchBlank_lf_pre (lf : Bool) {x : UInt8} (r : Bytes) (hx : isNl x = fa
       simp [blankLen, List.isPrefixOf, h2]
     rw [searchBlank_cons_zero h0]; rfl
 
-theorem fold_lf {x : UInt8} (r : Bytes) (h : isBytesSpace x = false) :
+theorem fold_lf {x : UInt8} (r : Bytes) (h32 : x ≠ 32) (h9 : x ≠ 9) :
     foldContinuations (10 :: x :: r) = 10 :: foldContinuations (x :: r) := by
-  have h32 : x ≠ 32 := by intro e; subst e; simp [isBytesSpace] at h
-  have h9 : x ≠ 9 := by intro e; subst e; simp [isBytesSpace] at h
   simp [foldContinuations, foldContinuations.go, lbLen_lf, h32, h9]
+
+/-- in front of a SP / TAB the stray LF is a folded continuation: it becomes one SP and the white space
+itself is skipped -/
+theorem fold_lf_ws {x : UInt8} (r : Bytes) (h : x = 32 ∨ x = 9) :
+    foldContinuations (10 :: x :: r) = 32 :: foldContinuations r := by
+  rcases h with rfl | rfl <;> simp [foldContinuations, foldContinuations.go, lbLen_lf]
+
+theorem fold_ws {x : UInt8} (r : Bytes) (h : x = 32 ∨ x = 9) :
+    foldContinuations (x :: r) = x :: foldContinuations r := by
+  rcases h with rfl | rfl <;> simp [foldContinuations, foldContinuations.go, lbLen]
 
 theorem splitLines_lf (rest : Bytes) : splitLines (10 :: rest) = [] :: splitLines rest := by
   simp [splitLines, splitLines.go]
 
+theorem stripBytes_ws_cons {x : UInt8} (l : Bytes) (h : isBytesSpace x = true) :
+    stripBytes (x :: l) = stripBytes l := by
+  simp [stripBytes, List.dropWhile_cons, h]
+
+/-- a white-space byte in front of the text only changes the first line `splitlines` yields, by that
+byte, which `strip` removes (a first line consisting of it alone is dropped as empty) -/
+theorem splitLinesGo_ws {w : UInt8} (hw : isBytesSpace w = true) : ∀ (t c : Bytes),
+    ((splitLines.go t (c ++ [w]) false).map stripBytes).filter (!·.isEmpty) =
+      ((splitLines.go t c false).map stripBytes).filter (!·.isEmpty) := by
+  intro t
+  induction t with
+  | nil =>
+    intro c
+    cases c with
+    | nil =>
+      have : stripBytes [w] = [] := by rw [stripBytes_ws_cons [] hw]; rfl
+      simp [splitLines.go, this]
+    | cons a c' =>
+      have hrev : ((a :: c') ++ [w]).reverse = w :: (a :: c').reverse := by simp
+      simp only [splitLines.go, List.isEmpty_cons, List.cons_append, Bool.false_eq_true, if_false]
+      have : (a :: (c' ++ [w])).reverse = w :: (a :: c').reverse := by simpa using hrev
+      rw [this]
+      simp [stripBytes_ws_cons _ hw]
+  | cons a t ih =>
+    intro c
+    have hrev : (c ++ [w]).reverse = w :: c.reverse := by simp
+    by_cases h10 : a = 10
+    · subst h10
+      have e : ((10 : UInt8) == 10) = true := by decide
+      simp only [splitLines.go, e, if_true, Bool.false_eq_true, if_false, List.map_cons, hrev,
+        stripBytes_ws_cons _ hw]
+    · by_cases h13 : a = 13
+      · subst h13
+        have e1 : ((13 : UInt8) == 10) = false := by decide
+        have e2 : ((13 : UInt8) == 13) = true := by decide
+        simp only [splitLines.go, e1, e2, Bool.false_eq_true, if_false, if_true, List.map_cons, hrev,
+          stripBytes_ws_cons _ hw]
+      · have e10 : (a == 10) = false := by simpa using h10
+        have e13 : (a == 13) = false := by simpa using h13
+        simp only [splitLines.go, e10, e13, Bool.false_eq_true, if_false]
+        have := ih (a :: c)
+        simpa using this
+
+theorem splitLines_ws_cons {w : UInt8} (hw : isBytesSpace w = true) (hn : isNl w = false) (t : Bytes) :
+    ((splitLines (w :: t)).map stripBytes).filter (!·.isEmpty) =
+      ((splitLines t).map stripBytes).filter (!·.isEmpty) := by
+  have e10 : (w == 10) = false := by
+    cases h : w == 10 with
+    | false => rfl
+    | true => have : w = 10 := by simpa using h
+              subst this; simp [isNl] at hn
+  have e13 : (w == 13) = false := by
+    cases h : w == 13 with
+    | false => rfl
+    | true => have : w = 13 := by simpa using h
+              subst this; simp [isNl] at hn
+  have := splitLinesGo_ws hw t []
+  simp only [List.nil_append] at this
+  simp only [splitLines, splitLines.go, e10, e13, Bool.false_eq_true, if_false]
+  exact this
+
 /-- a stray LF in front of the header block (the second half of a split CRLF) is an empty line to
-`_parse_headers` -/
-theorem parseHeaders_lf_pre (lf : Bool) {x : UInt8} (r : Bytes) (hx : isBytesSpace x = false) :
+`_parse_headers` — or, in front of SP / TAB, a folded continuation whose white space is stripped -/
+theorem parseHeaders_lf_pre (lf : Bool) {x : UInt8} (r : Bytes) (hx : isNl x = false) :
     parseHeaders (lfPre lf ++ x :: r) = parseHeaders (x :: r) := by
   cases lf with
   | false => simp [lfPre]
   | true =>
     simp only [lfPre, if_true, List.cons_append, List.nil_append]
-    unfold parseHeaders
-    rw [fold_lf r hx, splitLines_lf]
-    simp only [List.map_cons]
-    have hs0 : stripBytes [] = [] := rfl
-    rw [hs0]
-    simp only [List.filter_cons, List.isEmpty_nil, Bool.not_true, Bool.false_eq_true, if_false]
+    by_cases hws : x = 32 ∨ x = 9
+    · -- LF SP … folds to SP …, SP … stays as it is: the same lines up to the first byte of the first
+      -- line, which `strip` removes
+      unfold parseHeaders
+      rw [fold_lf_ws r hws, fold_ws r hws]
+      have hsp : isBytesSpace x = true := by rcases hws with rfl | rfl <;> decide
+      have h1 := splitLines_ws_cons (w := 32) (by decide) (by decide) (foldContinuations r)
+      have h2 := splitLines_ws_cons hsp hx (foldContinuations r)
+      simp only []
+      rw [h1, h2]
+    · have h32 : x ≠ 32 := fun e => hws (Or.inl e)
+      have h9 : x ≠ 9 := fun e => hws (Or.inr e)
+      unfold parseHeaders
+      rw [fold_lf r h32 h9, splitLines_lf]
+      simp only [List.map_cons]
+      have hs0 : stripBytes [] = [] := rfl
+      rw [hs0]
+      simp only [List.filter_cons, List.isEmpty_nil, Bool.not_true, Bool.false_eq_true, if_false]
 
-theorem headEvent_lf_pre (lf : Bool) {x : UInt8} (r : Bytes) (hx : isBytesSpace x = false) :
+theorem headEvent_lf_pre (lf : Bool) {x : UInt8} (r : Bytes) (hx : isNl x = false) :
     headEvent (lfPre lf ++ x :: r) = headEvent (x :: r) := by
   unfold headEvent
   rw [parseHeaders_lf_pre lf r hx]
@@ -632,7 +713,7 @@ theorem step_hdr {bnd : Bytes} (hb : BoundaryOk bnd) {d : Decoder} {fut : Bytes}
     (∃ d', nextEvent d = .ok (partHeadEvent p.out, d') ∧ Good nl bnd ep pr lead d' fut (.dataS p ps)) := by
   rcases hg with ⟨⟨hbn, hcomp, hmm, hmp⟩, hst, hcat, b0, c0, hbc, hb0, hpos⟩
   rcases rawOk_head hv with ⟨x, t, hx, hsp⟩
-  have hxn : isNl x = false := not_nl_of_not_space hsp
+  have hxn : isNl x = false := hsp
   have hev := (rawOk_event hv).1
   rcases rAfterOf_cons_blank (nl := nl) (ep := ep) bnd p ps with ⟨Z, hZ, hdZ⟩
   -- the whole stream and its first blank line
@@ -779,7 +860,7 @@ theorem rawBody_match {bnd : Bytes} (ps : List RawPart) (hvs : ∀ q ∈ ps, Raw
   · intro p ps' hps
     subst hps
     rcases rawOk_head (hvs p (by simp)) with ⟨x, t, hx, hsp⟩
-    have hx10 : x ≠ 10 := by intro e; subst e; simp [isBytesSpace] at hsp
+    have hx10 : x ≠ 10 := by intro e; subst e; simp [isNl] at hsp
     have := matchTail_pad_nl (nl := nl) (t ++ (nl.bytes ++ rDataOf nl bnd ep p ps')) (hvs p (by simp)).2.2.2.1 hx10
     simp only [rTailOf, hx, List.cons_append, List.isEmpty_cons] at hm
     rw [this] at hm
